@@ -520,88 +520,88 @@ func runC01(c *Ctx) {
 	}
 	pollHandlerCalls := 0
 	for _, pollFn := range dispatchFns {
-	pollFn := pollFn
-	eachInstr(pollFn, func(in ssa.Instruction) {
-		call, ok := in.(ssa.CallInstruction)
-		if !ok || !isDynamicFuncCall(call) {
-			return
-		}
-		k, _, ok := handlerIndexOf(call.Common().Value, handlersF)
-		if !ok {
-			return
-		}
-		pollHandlerCalls++
-		flag, dels, dname := readFlag, delRead, "read"
-		if k == e.writeEv {
-			flag, dels, dname = writeFlag, delWrite, "write"
-		}
-		// (i) guard
-		var guard *Lit
-		var guardLoads []ssa.Instruction
-		for _, l := range guardsOf(in.Block()) {
-			l := l
-			op, x, y, isCmp := l.cmp()
-			if !isCmp {
-				continue
+		pollFn := pollFn
+		eachInstr(pollFn, func(in ssa.Instruction) {
+			call, ok := in.(ssa.CallInstruction)
+			if !ok || !isDynamicFuncCall(call) {
+				return
 			}
-			var loads []ssa.Instruction
-			var consts []int64
-			loadsInTree(x, eventsF, 0, &loads, &consts)
-			loadsInTree(y, eventsF, 0, &loads, &consts)
-			hasFlag := false
-			for _, k := range consts {
-				if k == flag {
-					hasFlag = true
-				}
+			k, _, ok := handlerIndexOf(call.Common().Value, handlersF)
+			if !ok {
+				return
 			}
-			if len(loads) > 0 && hasFlag && ((op == token.EQL && sameValueConst(y, flag)) || (op == token.NEQ && isConstInt(y, 0))) {
-				guard = &l
-				guardLoads = loads
+			pollHandlerCalls++
+			flag, dels, dname := readFlag, delRead, "read"
+			if k == e.writeEv {
+				flag, dels, dname = writeFlag, delWrite, "write"
 			}
-		}
-		if guard == nil {
-			c.bad(pollFn, "dispatch "+dname+" guard", in.Pos(), "the %s handler is invoked without testing kernel mask & slot.Events & %s flag: a batch entry for an interest that an earlier handler removed (cancel/close) would still be dispatched", dname, dname)
-		} else {
-			// freshness: no handler invocation lies between the load of slot.Events and the guard
-			stale := false
-			eachInstr(pollFn, func(x ssa.Instruction) {
-				xc, ok := x.(ssa.CallInstruction)
-				if !ok || !isDynamicFuncCall(xc) || x == in {
-					return
+			// (i) guard
+			var guard *Lit
+			var guardLoads []ssa.Instruction
+			for _, l := range guardsOf(in.Block()) {
+				l := l
+				op, x, y, isCmp := l.cmp()
+				if !isCmp {
+					continue
 				}
-				if _, _, ok := handlerIndexOf(xc.Common().Value, handlersF); !ok {
-					return
-				}
-				for _, ld := range guardLoads {
-					lb := ld.Block()
-					if lb == x.Block() && instrIndex(ld) > instrIndex(x) {
-						continue
+				var loads []ssa.Instruction
+				var consts []int64
+				loadsInTree(x, eventsF, 0, &loads, &consts)
+				loadsInTree(y, eventsF, 0, &loads, &consts)
+				hasFlag := false
+				for _, k := range consts {
+					if k == flag {
+						hasFlag = true
 					}
-					afterLoad := (lb == x.Block() && instrIndex(ld) < instrIndex(x)) || (lb != x.Block() && lb.Dominates(x.Block()))
-					if afterLoad && reachesAvoidingBlock(x.Block(), guard.If.Block(), lb) && lb != guard.If.Block() {
-						stale = true
+				}
+				if len(loads) > 0 && hasFlag && ((op == token.EQL && sameValueConst(y, flag)) || (op == token.NEQ && isConstInt(y, 0))) {
+					guard = &l
+					guardLoads = loads
+				}
+			}
+			if guard == nil {
+				c.bad(pollFn, "dispatch "+dname+" guard", in.Pos(), "the %s handler is invoked without testing kernel mask & slot.Events & %s flag: a batch entry for an interest that an earlier handler removed (cancel/close) would still be dispatched", dname, dname)
+			} else {
+				// freshness: no handler invocation lies between the load of slot.Events and the guard
+				stale := false
+				eachInstr(pollFn, func(x ssa.Instruction) {
+					xc, ok := x.(ssa.CallInstruction)
+					if !ok || !isDynamicFuncCall(xc) || x == in {
+						return
+					}
+					if _, _, ok := handlerIndexOf(xc.Common().Value, handlersF); !ok {
+						return
+					}
+					for _, ld := range guardLoads {
+						lb := ld.Block()
+						if lb == x.Block() && instrIndex(ld) > instrIndex(x) {
+							continue
+						}
+						afterLoad := (lb == x.Block() && instrIndex(ld) < instrIndex(x)) || (lb != x.Block() && lb.Dominates(x.Block()))
+						if afterLoad && reachesAvoidingBlock(x.Block(), guard.If.Block(), lb) && lb != guard.If.Block() {
+							stale = true
+						}
+					}
+				})
+				c.check(!stale, pollFn, "dispatch "+dname+" guard", in.Pos(), "guarded by kernel mask & freshly read interest & flag", "the interest mask used to guard the "+dname+" handler was read before another handler of the same batch entry ran: a handler that cancels or closes the object does not prevent the stale dispatch")
+			}
+			// (ii) one-shot
+			var del ssa.Instruction
+			eachInstr(pollFn, func(x ssa.Instruction) {
+				if isCallTo(x, dels...) && dominatesInstr(x, in) && guard != nil {
+					gb := guard.If.Block()
+					tb := gb.Succs[0]
+					if !guard.Pos {
+						tb = gb.Succs[1]
+					}
+					_ = tb
+					if gb.Dominates(x.Block()) && x.Block() != gb {
+						del = x
 					}
 				}
 			})
-			c.check(!stale, pollFn, "dispatch "+dname+" guard", in.Pos(), "guarded by kernel mask & freshly read interest & flag", "the interest mask used to guard the "+dname+" handler was read before another handler of the same batch entry ran: a handler that cancels or closes the object does not prevent the stale dispatch")
-		}
-		// (ii) one-shot
-		var del ssa.Instruction
-		eachInstr(pollFn, func(x ssa.Instruction) {
-			if isCallTo(x, dels...) && dominatesInstr(x, in) && guard != nil {
-				gb := guard.If.Block()
-				tb := gb.Succs[0]
-				if !guard.Pos {
-					tb = gb.Succs[1]
-				}
-				_ = tb
-				if gb.Dominates(x.Block()) && x.Block() != gb {
-					del = x
-				}
-			}
+			c.check(del != nil, pollFn, "dispatch "+dname+" one-shot", in.Pos(), "the interest is removed before the handler runs", "the "+dname+" interest is not removed before its handler is invoked: a level-triggered event fires the same completion again")
 		})
-		c.check(del != nil, pollFn, "dispatch "+dname+" one-shot", in.Pos(), "the interest is removed before the handler runs", "the "+dname+" interest is not removed before its handler is invoked: a level-triggered event fires the same completion again")
-	})
 	}
 	if pollHandlerCalls == 0 {
 		c.bad(pollEntry, "dispatch", pollEntry.Pos(), "Poll no longer invokes slot handlers")
